@@ -93,7 +93,9 @@ fn run_case(c: &Case, tier: Tier) -> Chk<Pass> {
     with_threads(threads, || lee_rank(&b.base, &what))?;
     if ncomp != 1 || b.base.x.is_empty() || b.base.ncross() == 0 { return Ok(Pass::new().nt(ncomp >= 2).label("link-rank-only").label_if(ncomp >= 2, "multi-component")) }
     let pure = b.base.x.iter().all(|x| x.0 == CT::X);
-    if !pure { return Ok(Pass::new().label("non-pd")) }
+    // a knot diagram with a crossing smoothed along the orientation (Src::Smoothed) is kept; other mixed diagrams are not PD codes
+    let smoothed = matches!(c.iso.base.src, Src::Smoothed(..)) && c.iso.base.mods.is_empty();
+    if !pure && !smoothed { return Ok(Pass::new().label("non-pd")) }
     // (a), (b) canonical cycles
     with_threads(threads, || match c.c {
         CRing::I64(v) => canon_checks::<i64>(&b.moved, &(v as i64), c.reduced, &what),
@@ -115,9 +117,16 @@ fn run_case(c: &Case, tier: Tier) -> Chk<Pass> {
     let sm = with_threads(threads, || ss_of(&b.base.mirror_type(), cc, c.reduced)).map_err(ovf)?;
     ensure!(sm == -s0, "{what}: ss(mirror) = {sm}, expected {}", -s0);
     ensure!(s0 % 2 == 0, "{what}: ss = {s0} is odd for a knot");
-    // crossing change
-    let n = b.base.x.len();
-    let k = (c.crossing as usize * n) >> 16;
+    if smoothed { if let Some(p) = b.base.purify() {
+        // the same knot diagram written as a pure PD code (smoothed crossing removed, labels identified)
+        if p.orient(0).map(|o| o.strands.len() == 1).unwrap_or(false) && p.ncross() > 0 {
+            let sp = with_threads(threads, || ss_of(&p, cc, c.reduced)).map_err(ovf)?;
+            ensure!(sp == s0, "{what}: ss = {s0} for the diagram with a smoothed crossing but {sp} for the same diagram as a pure PD code {:?}", p.x);
+        }
+    } }
+    // crossing change (at a real crossing)
+    let real: Vec<usize> = (0..b.base.x.len()).filter(|i| matches!(b.base.x[*i].0, CT::X | CT::Xm)).collect();
+    let k = real[(c.crossing as usize * real.len()) >> 16];
     let o = b.base.orient(0).unwrap();
     let sign = o.signs[k].unwrap();
     let changed = b.base.crossing_change(k).map_err(Bad::Fail)?;
@@ -129,7 +138,7 @@ fn run_case(c: &Case, tier: Tier) -> Chk<Pass> {
     let type_changed = own_jones(&changed).ok() != own_jones(&b.base).ok();
     let alternating_guess = b.base.x.iter().all(|x| x.0 == CT::X) && { let s: Vec<i32> = o.signs.iter().flatten().cloned().collect(); s.iter().all(|x| *x == s[0]) };
     Ok(Pass::new().nt(b.r23_moves > 0 || type_changed || !alternating_guess).label(format!("c:{:?}", match cc { CRing::I64(v) | CRing::Big(v) => format!("{v}"), o => format!("{:?}", o) }))
-        .label_if(b.r23_moves > 0, "R2/R3/Markov-move").label_if(type_changed, "crossing-change-changes-knot").label_if(c.reduced, "reduced").label_if(s0 != 0, "ss-nonzero"))
+        .label_if(b.r23_moves > 0, "R2/R3/Markov-move").label_if(type_changed, "crossing-change-changes-knot").label_if(c.reduced, "reduced").label_if(s0 != 0, "ss-nonzero").label_if(smoothed, "smoothed-crossing-in-diagram"))
 }
 
 fn knot_names(maxc: usize) -> Vec<String> { pool_names(maxc).into_iter().filter(|n| !n.starts_with('L')).collect() }
@@ -138,7 +147,7 @@ impl Prop for C06 {
     type Case = Case;
     const ID: &'static str = "C06";
     fn rule() -> String {
-        "case = (base: table knot / link with <= 9 (10) crossings or a braid closure, a history of braid and PD moves as in C02, c in {2, 3} over i64 / BigInt or c = H over F2[H], F3[H], Q[H], reduced flag, a crossing index, threads). \
+        "case = (base: table knot / link with <= 9 (10) crossings or a braid closure, or (one in 16) a table link with one crossing between two components smoothed along the orientation and kept as a resolved crossing (a knot diagram; its ss must also equal that of the same diagram rewritten as a pure PD code), a history of braid and PD moves as in C02, c in {2, 3} over i64 / BigInt or c = H over F2[H], F3[H], Q[H], reduced flag, a crossing index, threads). \
          every link: Kh with (h,t) = (1,0) over Z is free of total rank 2^components, and with (0,1) over Q has total rank 2^components; \
          knots: KhComplex::new(l, h, 0, red) reports 2 (1 reduced) canonical cycles, all terms in homological degree 0, d z = 0 (also for h = 0), and for h != 0 each class has a non-zero free coordinate in Kh^0; \
          ss_invariant equal for the base and the moved diagram, for reduced and unreduced, negated by the mirror, even, and ss(K-) <= ss(K+) <= ss(K-) + 2 for the change of the chosen crossing (own PD rewriting). \
@@ -149,7 +158,9 @@ impl Prop for C06 {
         let names = knot_names(maxc);
         let knot_base = prop::sample::select(names).prop_map(|n| DSpec { src: Src::Pool(n), mods: vec![] });
         let cr = prop_oneof![3 => Just(CRing::I64(2)), 2 => Just(CRing::I64(3)), 1 => Just(CRing::Big(2)), 1 => Just(CRing::Big(3)), 2 => Just(CRing::F2H), 2 => Just(CRing::F3H), 1 => Just(CRing::QH)];
-        let iso = (prop_oneof![3 => knot_base.prop_map(Some), 2 => Just(None)], iso_strategy(maxc, 4)).prop_map(|(kb, mut iso)| { if let Some(b) = kb { iso.base = b; } iso });
+        let links: Vec<String> = pool_names(maxc).into_iter().filter(|n| n.starts_with('L')).collect();
+        let smoothed_base = (prop::sample::select(links), any::<u8>()).prop_map(|(n, k)| DSpec { src: Src::Smoothed(n, k), mods: vec![] });
+        let iso = (prop_oneof![9 => knot_base.prop_map(Some), 1 => smoothed_base.prop_map(Some), 6 => Just(None)], iso_strategy(maxc, 4)).prop_map(|(kb, mut iso)| { if let Some(b) = kb { iso.base = b; } iso });
         (iso, cr, any::<bool>(), any::<u16>(), any::<u8>()).prop_map(|(iso, c, reduced, crossing, threads)| Case { iso, c, reduced, crossing, threads }).boxed()
     }
     fn cases(tier: Tier) -> u32 { tier.pick(2_500, 40_000) }
